@@ -199,7 +199,7 @@ example : positions Gen.Lineno.newline (Text.ofString "\n\nab") = [(1, 1), (2, 1
 (offset 1, line 1) of `"ab\ncd"`. -/
 example : lineStart 10 (Text.ofString "ab\ncd") 1 = 0 ∧ 4 - lineStart 10 (Text.ofString "ab\ncd") 4 = 1 := by decide
 
-example : errorMessage Gen.Lineno.prefixTemplate Gen.Lineno.indentPrefix
+example : errorMessage Gen.Lineno.prefixTemplate (Text.ofString "  ")
     (positions Gen.Lineno.newline (Text.ofString "ab\ncd"))
     (.mk (some 4) (Text.ofString "m") [.mk none (Text.ofString "u") []])
     = .ok (Text.ofString "At line 2 and column 2: m\n  u") := by decide
